@@ -98,6 +98,20 @@ func zzC09_kmac_ctor(keyLen, custLen, dataLen int) {
 	verifReach("kmac ctor")
 }
 
+// zzC09_kmac_keylen: the constructor and one hash for a key of any length (key block padding boundaries)
+func zzC09_kmac_keylen(keyLen int) {
+	key := nondetBytes(keyLen)
+	h, err := NewKMAC_128(key, nil, 32)
+	if keyLen < 16 {
+		verifAssert(bAnd(h == nil, err != nil), "short keys are rejected")
+		verifReach("kmac keylen rejected")
+		return
+	}
+	verifAssert(err == nil, "valid parameters are accepted")
+	verifAssert(len(h.ComputeHash(nondetBytes(1))) == 32, "ComputeHash has the requested size")
+	verifReach("kmac keylen")
+}
+
 // zzC09_hashers: fixed-function hashers and one-shot helpers on any input length
 func zzC09_hashers(dataLen int) {
 	data := nondetBytes(dataLen)
